@@ -3,11 +3,19 @@ SPEC = {
     "bins": [
         # black-box: circl's six KEM packages and three K-PKE packages against the independent reference ref/mlkem
         {"name": "c03", "pkg": "./zz_verif/c03", "run": "^TestC03",
-         "configs": [c for c in CPU_OFF if c["name"] in ("default", "noavx2", "purego")],
-         "quick_configs": ["default", "noavx2"],
+         "configs": [c for c in CPU_OFF if c["name"] in ("default", "noavx2")],
          "shards": {"quick": 4, "thorough": 16}},
-        # white-box: sweeps of the helper functions of pke/kyber/internal/common over their documented domains
+        # the same comparison with the reference on the other back-ends (reduced: generated KEM / K-PKE / parse cases only,
+        # one shard in quick): -tags purego uses the wrappers of generic.go, alloff the non-AVX2 branch of amd64.go
+        {"name": "c03alt", "pkg": "./zz_verif/c03", "run": "^TestC03(KEM|PKE|Parse|Aliasing)$",
+         "configs": [c for c in CPU_OFF if c["name"] in ("purego", "alloff")],
+         "quick_configs": ["purego", "alloff"],
+         "shards": {"quick": 1, "thorough": 8}},
+        # white-box: sweeps of the helper functions of pke/kyber/internal/common over their documented domains; the default
+        # build sweeps the amd64.go wrappers with AVX2 off and on, the purego build the generic.go wrappers
         {"name": "c03wb", "pkg": "./pke/kyber/internal/common", "run": "^TestVC03", "whitebox": True,
+         "configs": [c for c in CPU_OFF if c["name"] in ("default", "purego")],
+         "quick_configs": ["default", "purego"],
          "shards": {"quick": 2, "thorough": 16}},
     ],
     "rule": "black-box case = (parameter set, 64-byte seed d||z, 32-byte m, ciphertext) resp. (parameter set, key bytes); every case compares circl's bytes "
